@@ -5,6 +5,7 @@ package main
 // TLC against the reference semantics spec/ZSem.tla (spec/SemTrace.tla).
 
 import (
+	"strings"
 	"encoding/json"
 	"flag"
 	"fmt"
@@ -87,9 +88,26 @@ func newSemEnv() *semEnv {
 	return se
 }
 
+// splitMark separates the pieces of a program that are handed to the interpreter in separate
+// evaluations, one after the other (the reference semantics evaluates the forms in one sequence)
+const splitMark = "\n//--next-evaluation--\n"
+
+func renderSplit(prog []node, split int) string {
+	if split <= 0 || split >= len(prog) {
+		return renderProgram(prog, nil)
+	}
+	return renderProgram(prog[:split], nil) + splitMark + renderProgram(prog[split:], nil)
+}
+
 func runSem(id, slice string, prog []node, text string) semCase {
 	se := newSemEnv()
-	o := evalSafe(se.env, text)
+	var o outcome
+	for _, piece := range strings.Split(text, splitMark) {
+		o = evalSafe(se.env, piece)
+		if o.Kind != "val" {
+			break
+		}
+	}
 	var out any
 	switch o.Kind {
 	case "val":
